@@ -67,7 +67,7 @@ func drawC10(t *rapid.T) caseC10 {
 		classes = []string{"k128"}
 	}
 	c.Data = gen.DrawRecipe(t, 3, 200000, classes...)
-	if rapid.IntRange(0, 7).Draw(t, "beyonddict") == 0 {
+	if rapid.IntRange(0, 4).Draw(t, "beyonddict") == 0 {
 		// more content than the dictionary of preset -0 (256 KiB) holds: the
 		// decoder's window wraps and hands out data in several rounds before
 		// a truncation or corruption is met; both formats, mostly decompression
@@ -78,7 +78,12 @@ func drawC10(t *rapid.T) caseC10 {
 			if !strings.HasSuffix(c.Name, "."+c.Fmt) {
 				c.Name = "big." + c.Fmt
 			}
-			c.Input = rapid.SampledFrom([]string{"valid", "trunc", "trunc", "bitflip"}).Draw(t, "bdinput")
+			c.Input = rapid.SampledFrom([]string{"valid", "trunc", "trunc", "trunc", "bitflip"}).Draw(t, "bdinput")
+			// the cut of a truncated input lies at 3/4 of the file: more than
+			// 256 KiB are decoded before it
+			if c.Data[0].Len < 400000 {
+				c.Data[0].Len += 300000
+			}
 		} else {
 			c.Op, c.Name, c.Input = "compress", "big", "valid"
 		}
@@ -88,15 +93,22 @@ func drawC10(t *rapid.T) caseC10 {
 
 // samplePoints bounds the cost of scenarios with many system calls: every
 // call among the first and last 40 and every step-th one in between.
-func samplePoints(calls []ptCall) map[int]bool {
+func samplePoints(calls []ptCall, big bool) map[int]bool {
 	keep := map[int]bool{}
 	n := len(calls)
+	edge, mid := 40, 40
+	if big {
+		// scenarios with hundreds of kilobytes of content are there for what
+		// the undisturbed run and the first / last calls show; each traced run
+		// costs tens of milliseconds
+		edge, mid = 12, 10
+	}
 	step := 1
-	if n > 160 {
-		step = (n - 80) / 40
+	if n > 2*edge+2*mid {
+		step = (n - 2*edge) / mid
 	}
 	for i, cl := range calls {
-		if i < 40 || i >= n-40 || (i-40)%step == 0 {
+		if i < edge || i >= n-edge || (i-edge)%step == 0 {
 			keep[cl.K] = true
 		}
 	}
@@ -445,7 +457,7 @@ func checkC10(c caseC10, rec *ev.Rec) *ev.Failure {
 			}
 		}
 	}
-	keep := samplePoints(base.Calls)
+	keep := samplePoints(base.Calls, len(e.plain) > 250000)
 	if len(keep) < len(base.Calls) {
 		rec.Class("points_sampled(>160 calls)")
 	}
@@ -571,7 +583,7 @@ func checkC10(c caseC10, rec *ev.Rec) *ev.Failure {
 
 func TestC10(t *testing.T) {
 	rec := ev.New("C10", "fault_enumeration")
-	rec.Rule = "rapid draws a gxz scenario ({compress, decompress} x {xz, lzma} x subsets of {-k,-f,-c} x names with known / tar / unknown suffix x {valid, bit-flipped, truncated} input x target absent / present x a user file under the temporary name present / absent x content incl. > 64 KiB, plus a bystander file); the unmodified binary built from the tree runs under a ptrace tracer that numbers every system call touching the directory; per scenario: one undisturbed run, EVERY mutating call as a kill point (killed before it executes) and EVERY listed call as a fault point (scenarios with more than 160 calls: the first and last 40 and 40 evenly spaced ones) (ENOSPC/EIO/EACCES/EXDEV as fits), EVERY mutating call as the arrival point of SIGINT (handled by gxz: temporary file removed, exit 7), each on a fresh copy; the tracer blocks and reports any removal / rename of a path outside the directory; oracle on the directory afterwards: gxz removed nothing but its temporary file and (after success) the input; input intact or complete output under a different final name; target name never holds a partial file; pre-existing target kept without -f; bystander and a user file under the temporary name untouched; not killed: no temporary file, exit != 0 => input intact, exit 0 => complete output (file or stdout) and input removed iff neither -k nor -c; corrupt / truncated / unknown-suffix / existing-target scenarios must fail; evaluations = traced runs; non-trivial = kill / fault at or after creation of the temporary file; distinct = hash(scenario, point)"
+	rec.Rule = "rapid draws a gxz scenario ({compress, decompress} x {xz, lzma} x subsets of {-k,-f,-c} x names with known / tar / unknown suffix x {valid, bit-flipped, truncated} input x target absent / present x a user file under the temporary name present / absent x content incl. > 64 KiB, plus a bystander file); the unmodified binary built from the tree runs under a ptrace tracer that numbers every system call touching the directory; per scenario: one undisturbed run, EVERY mutating call as a kill point (killed before it executes) and EVERY listed call as a fault point (scenarios with more than 160 calls: the first and last 40 and 40 evenly spaced ones; scenarios with more than 250 KB of content: 12 + 12 + 10) (ENOSPC/EIO/EACCES/EXDEV as fits), EVERY mutating call as the arrival point of SIGINT (handled by gxz: temporary file removed, exit 7), each on a fresh copy; the tracer blocks and reports any removal / rename of a path outside the directory; oracle on the directory afterwards: gxz removed nothing but its temporary file and (after success) the input; input intact or complete output under a different final name; target name never holds a partial file; pre-existing target kept without -f; bystander and a user file under the temporary name untouched; not killed: no temporary file, exit != 0 => input intact, exit 0 => complete output (file or stdout) and input removed iff neither -k nor -c; corrupt / truncated / unknown-suffix / existing-target scenarios must fail; evaluations = traced runs; non-trivial = kill / fault at or after creation of the temporary file; distinct = hash(scenario, point)"
 	rec.Assumptions = []string{"a single system call is atomic; a kill inside a write equals a kill after a shorter write to the temporary file", "process kill, not power loss (gxz does not fsync)", "if ptrace is not permitted the check is inconclusive"}
 	drive(t, rec, drawC10, checkC10)
 }
